@@ -9,8 +9,14 @@ Driver for C19 (response sink).  Case lines (after the index):
         `ok <iterations> <failed> <hex canonical file> <returned: T (n enc…)…>`
     the file is canonical: what was there after `open` verbatim, then the appended lines — in order when
     there is one worker, sorted when there are several (the real threads interleave as they like).
-  A <existing> <format> <rate> <persist 0|1> <workers> <inputErrors: n resp…>     (CompassApp::run end to end)
+  A <path> <format> <rate> <persist 0|1> <workers> <inputErrors: n resp…>     (CompassApp::run end to end)
       → `ok <hex canonical file> <n> <the n responses handed back, encoded, sorted>` | `apperr`
+  A0 <persist> <workers> <inputErrors>                      (CompassApp::run, output policy none)
+  B <mode> <hex name> <path> <format> <rate> <close 0|1> <n resp…>   (sink life cycle at any kind of path)
+      → `refused|ioerr|badrate <path after>` | `ok <iterations> <close: skip|none|some hex name> <file hex | -> <n> (o|e|l|p <enc response after>)…`
+  Y <k (hex name, path, format, rate)…> <close 0|1> <n resp…>            (Combined policy: build, writes, close)
+      → `builderr <k paths after>` | `ok <close: skip|none|some hex names> <k> <k files> <n> (o|e <enc>| l | p)…`
+  <path>    = m (missing) | f <hex> (a file) | d (a directory) | p (no parent directory) | F (a device refusing writes)
   P <hex text>                   (reader: `SinkRead.parse` vs `serde_json::from_str`)
       → `ok <enc value, number bits 0>` | `fail`
   X <k formats…> <response>      (a Combined sink of k file sinks, one response)
@@ -161,7 +167,7 @@ def canonCsvErr (v : Json) : Json :=
 
 def canon (j : Json) : Json :=
   match j with
-  | .obj kvs => .obj (kvs.map fun (k, v) => if k == "error" || k == "csv_error" then (k, canonCsvErr v) else (k, v))
+  | .obj kvs => .obj (kvs.map fun (k, v) => if k == "error" || k.startsWith "csv_error" then (k, canonCsvErr v) else (k, v))
   | _ => j
 
 /-- split a text at `\n`; a trailing newline yields a final empty piece -/
@@ -180,12 +186,52 @@ def canonFile (s : FileSink) (sort : Bool) : List Char :=
   | opened :: chunks =>
     let rest := chunks.flatten
     if sort then
-      let ls := (splitLines rest).toArray.qsort textLt |>.toList
-      opened ++ joinWith ['\n'] ls
+      match s.format with
+      | .csv _ _ =>
+        -- a CSV record may span lines (line breaks inside quoted fields): sort the records themselves
+        opened ++ (chunks.toArray.qsort textLt |>.toList).flatten
+      | .json _ =>
+        let ls := (splitLines rest).toArray.qsort textLt |>.toList
+        opened ++ joinWith ['\n'] ls
     else opened ++ rest
 
 def returnedOut (rs : List (List Json)) : String :=
   joinSp (toString rs.length :: rs.map fun l => joinSp (toString l.length :: l.map fun j => JsonProto.enc (canon j)))
+
+def pathState : P PathState := do
+  let t ← next
+  match t with
+  | "m" => pure .missing
+  | "f" => do let c ← JsonProto.str; pure (.file c.toList)
+  | "d" => pure .directory
+  | "p" => pure .noParent
+  | "F" => pure .full
+  | _ => failure
+
+def pathOut : PathState → String
+  | .missing => "m"
+  | .file c => "f " ++ hexOfText c
+  | .directory => "d"
+  | .noParent => "p"
+  | .full => "F"
+
+def modeP : P WriteMode := do
+  let t ← next
+  match t with
+  | "a" => pure .append
+  | "o" => pure .overwrite
+  | "e" => pure .error
+  | _ => failure
+
+/-- the text of the file behind a sink (`-` for a device that holds nothing) -/
+def fileOut (s : FileSink) : String := if s.failing then "-" else hexOfText s.contents
+
+def member : P Member := do
+  let name ← JsonProto.str
+  let path ← pathState
+  let f ← format
+  let rate ← optOf int
+  pure { name := name, format := f, rate := rate, path := path }
 
 def caseP : P String := do
   let op ← next
@@ -196,6 +242,7 @@ def caseP : P String := do
     let hdr := optOut hexOfText (initialContents f)
     match formatResponse floatOps f r with
     | .panic => pure "panic"
+    | .diverges => pure "diverges"
     | .ok (row, r') => pure s!"H {hdr} R {hexOfText row} P {JsonProto.enc (canon r')}"
   | "S" => do
     let modeTok ← next
@@ -220,23 +267,76 @@ def caseP : P String := do
       let file := canonFile sink' (workers.length > 1)
       pure s!"ok {sink'.iterations} {r2.failed} {hexOfText file} {returnedOut r2.returned}"
   | "A" => do
-    -- CompassApp::run end to end: an S case plus the responses of queries that failed input processing
-    let existing ← optOf JsonProto.str
+    -- CompassApp::run end to end with a file policy at a path of any kind
+    let path ← pathState
     let f ← format
     let rate ← optOf int
     let persist ← bool
     let workers ← listOf (listOf JsonProto.json)
     let inputErrors ← listOf JsonProto.json
-    match build .append f rate (existing.map String.toList) with
-    | .refused => pure "refused"
-    | .badFlushRate c => pure s!"badrate {hexOfText c}"
+    match buildAt .append "" f rate path with
+    | .refused => pure "apperr"
+    | .ioError => pure "apperr"
+    | .badFlushRate => pure "apperr"
     | .ok sink =>
       match appRun floatOps persist sink workers inputErrors (sequentialSchedule workers) with
       | none => pure "apperr"
       | some (sink', returned) =>
         -- what is handed back, as a multiset (the real chunking of the batch is the load balancer's)
         let encs := (returned.map fun j => JsonProto.enc (canon j)).toArray.qsort (fun a b => a < b) |>.toList
-        pure (joinSp (["ok", hexOfText (canonFile sink' (workers.length > 1)), toString returned.length] ++ encs))
+        let file := if sink'.failing then "-" else hexOfText (canonFile sink' (workers.length > 1))
+        pure (joinSp (["ok", file, toString returned.length] ++ encs))
+  | "A0" => do
+    -- CompassApp::run without an output policy (`type = "none"`): nothing is written anywhere
+    let persist ← bool
+    let workers ← listOf (listOf JsonProto.json)
+    let inputErrors ← listOf JsonProto.json
+    let returned := (if persist then workers.flatten else []) ++ inputErrors
+    let encs := (returned.map fun j => JsonProto.enc (canon j)).toArray.qsort (fun a b => a < b) |>.toList
+    pure (joinSp (["ok", toString returned.length] ++ encs))
+  | "B" => do
+    -- one sink life cycle at a path of any kind, one writer: build, writes, close
+    let mode ← modeP
+    let name ← JsonProto.str
+    let path ← pathState
+    let f ← format
+    let rate ← optOf int
+    let close ← bool
+    let rs ← listOf JsonProto.json
+    let after := pathOut (pathAfterOpen mode f path)
+    match buildAt mode name f rate path with
+    | .refused => pure s!"refused {after}"
+    | .ioError => pure s!"ioerr {after}"
+    | .badFlushRate => pure s!"badrate {after}"
+    | .ok sink =>
+      let (sink', outs) := rs.foldl (fun (acc : FileSink × List String) r =>
+        match acc.1.write floatOps r with
+        | .ok s' r' => (s', ("o " ++ JsonProto.enc (canon r')) :: acc.2)
+        | .ioError s' r' => (s', ("e " ++ JsonProto.enc (canon r')) :: acc.2)
+        | .lockError s' => (s', ("l " ++ JsonProto.enc (canon r)) :: acc.2)
+        | .panic s' => (s', ("p " ++ JsonProto.enc (canon r)) :: acc.2)
+        | .diverges s' => (s', "diverges" :: acc.2)) (sink, [])
+      let closed := if close then optOut JsonProto.hexOfStr sink'.closeName else "skip"
+      let sink'' := if close then sink'.close else sink'
+      pure (joinSp (["ok", toString sink''.iterations, closed, fileOut sink'', toString outs.length] ++ outs.reverse))
+  | "Y" => do
+    -- a Combined policy: build every member, hand every response to every member, close
+    let ms ← listOf member
+    let close ← bool
+    let rs ← listOf JsonProto.json
+    match buildAll ms with
+    | (sts, none) => pure (joinSp ("builderr" :: sts.map pathOut))
+    | (_, some sinks) =>
+      let (sinks', outs) := rs.foldl (fun (acc : List FileSink × List String) r =>
+        match writeCombined floatOps acc.1 r with
+        | .ok ss r' => (ss, ("o " ++ JsonProto.enc (canon r')) :: acc.2)
+        | .ioError ss r' => (ss, ("e " ++ JsonProto.enc (canon r')) :: acc.2)
+        | .lockError ss => (ss, "l" :: acc.2)
+        | .panic ss => (ss, "p" :: acc.2)
+        | .diverges ss => (ss, "diverges" :: acc.2)) (sinks, [])
+      let (sinks'', names) := if close then closeCombined sinks' else (sinks', some [])
+      let closed := if close then optOut (fun ns => JsonProto.hexOfStr (",".intercalate ns)) names else "skip"
+      pure (joinSp (["ok", closed, toString sinks''.length] ++ sinks''.map fileOut ++ [toString outs.length] ++ outs.reverse))
   | "P" => do
     -- the reader of Model/SinkRead.lean against serde_json::from_str on one line of text
     let line ← JsonProto.str
@@ -250,6 +350,8 @@ def caseP : P String := do
       ({ format := f, flushEvery := 1, file := [[]], iterations := 0, flushes := 0, poisoned := false } : FileSink)
     match writeCombined floatOps sinks r with
     | .panic _ => pure "panic"
+    | .diverges _ => pure "diverges"
+    | .ioError _ _ => pure "ioerr"
     | .lockError _ => pure "lock"
     | .ok ss r' =>
       let rows := ss.map fun s => hexOfText (s.file.drop 1).flatten
